@@ -30,6 +30,102 @@ def _pamqp_dir():
     return os.path.dirname(os.path.abspath(pamqp.__file__)) + os.sep
 
 
+_LOCK_TYPES = (type(threading.Lock()), type(threading.RLock()))
+_TLS = threading.local()         # .tid / .runner of a scheduled thread
+
+
+class CoopLock:
+    """Stands in for a threading.Lock / RLock that the LIBRARY created.  A
+    scheduled thread that finds it taken does not block in the kernel (its
+    holder is suspended by the scheduler and could never release it): it is
+    marked blocked, the scheduler runs another enabled thread, and it tries
+    again when the lock has been released.  Threads that are not under the
+    scheduler use the real lock."""
+
+    def __init__(self, real):
+        self._real = real
+        self._reentrant = 'RLock' in type(real).__name__
+        self._owner = None
+        self._count = 0
+
+    def acquire(self, blocking=True, timeout=-1):
+        runner = getattr(_TLS, 'runner', None)
+        if runner is None:
+            return self._real.acquire(blocking, timeout)
+        tid = _TLS.tid
+        while True:
+            if self._owner is None or (self._reentrant and
+                                       self._owner == tid):
+                self._owner = tid
+                self._count += 1
+                return True
+            if not blocking:
+                return False
+            runner._block_on(tid, self)
+
+    def release(self):
+        runner = getattr(_TLS, 'runner', None)
+        if runner is None:
+            return self._real.release()
+        if self._owner != _TLS.tid and self._reentrant:
+            raise RuntimeError('cannot release un-acquired lock')
+        self._count -= 1
+        if self._count <= 0:
+            self._owner, self._count = None, 0
+            runner._unblock(self)
+
+    def locked(self):
+        return self._owner is not None or (
+            hasattr(self._real, 'locked') and self._real.locked())
+
+    def _reset(self):
+        self._owner, self._count = None, 0
+
+    __enter__ = acquire
+
+    def __exit__(self, *exc):
+        self.release()
+
+
+def install_coop_locks():
+    """Replace every lock object held in a global of a pamqp module, or in an
+    attribute of an object / class held there, by a CoopLock.  Returns the
+    list of (description, CoopLock)."""
+    found = []
+    seen = set()
+
+    def swap(holder, key, get, put, where):
+        v = get(holder, key)
+        if isinstance(v, _LOCK_TYPES):
+            c = CoopLock(v)
+            try:
+                put(holder, key, c)
+                found.append((where, c))
+            except Exception:  # noqa
+                pass
+        elif isinstance(v, CoopLock):
+            found.append((where, v))
+
+    for name, mod in list(sys.modules.items()):
+        if not (name == 'pamqp' or name.startswith('pamqp.')) or mod is None:
+            continue
+        for g in list(vars(mod)):
+            swap(vars(mod), g, dict.get, dict.__setitem__, name + '.' + g)
+            obj = vars(mod).get(g)
+            if id(obj) in seen or isinstance(obj, (type(sys), CoopLock)):
+                continue
+            seen.add(id(obj))
+            d = getattr(obj, '__dict__', None)
+            if isinstance(d, dict):
+                for a in list(d):
+                    swap(obj, a, getattr, setattr, '%s.%s.%s' % (name, g, a))
+            elif d is not None:          # a class: mappingproxy
+                for a in list(d):
+                    swap(obj, a, lambda o, k: o.__dict__.get(k), setattr,
+                         '%s.%s.%s' % (name, g, a))
+    return found
+
+
 class Execution:
     __slots__ = ('choices', 'points', 'results', 'errors', 'diverged')
 
@@ -71,6 +167,9 @@ class Runner:
         self.prefix = ()
         self.alive = set()
         self.failure = []
+        self.blocked = {}
+        self.deadlock = None
+        self.locks = []
 
     def _is_lib(self, filename):
         r = self._known.get(filename)
@@ -104,11 +203,31 @@ class Runner:
         if len(alive) == 1:
             enabled = [tid]
         else:
-            enabled = [tid] + [t for t in sorted(alive) if t != tid]
+            blocked = self.blocked
+            enabled = [tid] + [t for t in sorted(alive)
+                               if t != tid and t not in blocked]
         nxt = self._pick(enabled, True, tid)
         if nxt != tid:
             self.batons[nxt].release()
             self.batons[tid].acquire()
+
+    def _block_on(self, tid, lock):
+        """tid wants a library lock held by a suspended thread: it is not
+        enabled until the lock is released.  Another enabled thread runs;
+        with none left the library has deadlocked."""
+        self.blocked[tid] = lock
+        enabled = [t for t in sorted(self.alive) if t not in self.blocked]
+        if not enabled:
+            self.deadlock = sorted(self.blocked)
+            raise Divergence('deadlock: every live thread waits for a '
+                             'library lock')
+        nxt = self._pick(enabled, False, tid)
+        self.batons[nxt].release()
+        self.batons[tid].acquire()
+
+    def _unblock(self, lock):
+        for t in [t for t, l in self.blocked.items() if l is lock]:
+            del self.blocked[t]
 
     def _worker(self, tid):
         def local(frame, event, arg):
@@ -121,6 +240,7 @@ class Runner:
                 return local
             return None
 
+        _TLS.tid, _TLS.runner = tid, self
         while True:
             self.batons[tid].acquire()          # wait for the baton
             if self.stop:
@@ -146,7 +266,13 @@ class Runner:
             self._abort()
         elif self.alive:
             try:
-                nxt = self._pick(sorted(self.alive), False, tid)
+                enabled = [t for t in sorted(self.alive)
+                           if t not in self.blocked]
+                if not enabled:
+                    self.deadlock = sorted(self.blocked)
+                    raise Divergence('deadlock: a thread finished holding a '
+                                     'library lock others wait for')
+                nxt = self._pick(enabled, False, tid)
                 self.batons[nxt].release()
             except Divergence as exc:
                 self.failure.append(exc)
@@ -183,8 +309,20 @@ class Runner:
         self.prefix = prefix
         self.alive = set(range(len(self.bodies)))
         self.failure = []
+        self.blocked = {}
+        self.deadlock = None
         if self.setup:
             self.setup()
+        # library locks become scheduler-aware (after setup: a cold start
+        # has just imported the library anew)
+        key = tuple(id(m) for n, m in sorted(sys.modules.items())
+                    if n == 'pamqp' or n.startswith('pamqp.'))
+        self._runs = getattr(self, '_runs', 0) + 1
+        if key != getattr(self, '_lock_key', None) or not self._runs & 255:
+            self.locks = install_coop_locks()
+            self._lock_key = key
+        for _where, lock in self.locks:
+            lock._reset()
         try:
             first = self._pick(sorted(self.alive), False, -1)
         except Divergence:
